@@ -14,6 +14,7 @@ enum Op {
     IntoStream,
     Get(u64, u64),
     Read(usize),
+    ReadAll,
     Sizes,
 }
 
@@ -31,6 +32,7 @@ fn parse_ops(c: &Case) -> Vec<Op> {
                 "intostream" => Op::IntoStream,
                 "get" => Op::Get(p[1].parse().unwrap(), p[2].parse().unwrap()),
                 "read" => Op::Read(p[1].parse().unwrap()),
+                "readall" => Op::ReadAll,
                 "sizes" => Op::Sizes,
                 _ => panic!("bad op {t}"),
             });
@@ -149,6 +151,13 @@ fn run_stream(mut s: ByteStream, ops: &[Op], out: &mut Out) {
             match fail {
                 None => out.emit(format!("bytes {}", show(&buf[..got]))),
                 Some(_) => out.emit("err ERR_IO".into()),
+            }
+        }
+        Op::ReadAll => {
+            let mut buf = vec![];
+            match s.read_to_end(&mut buf) {
+                Ok(_) => out.emit(format!("bytes {}", show(&buf))),
+                Err(_) => out.emit("err ERR_IO".into()),
             }
         }
         Op::Sizes => {
